@@ -6,7 +6,8 @@ shipped exactly).  The literals `100`, `1e-10`, `//2`, `99.99` come from `Gen/Qu
     data = np.sort(data)
     lag = int(len(data) * percent/100)
     diff = data[lag:] - data[:len(data)-lag]
-    i = np.where(np.abs(diff - np.min(diff)) < 1e-10)[0]
+    dmin = np.min(diff)
+    i = np.where(np.abs(diff - dmin) <= 1e-10 * np.abs(dmin))[0]
     i = i[len(i)//2]
     return np.array((data[i], data[i + lag]))
 
@@ -38,9 +39,9 @@ def minList (d0 : Rat) (ds : List Rat) : Rat := ds.foldl (fun m x => if x < m th
 
 def absR (q : Rat) : Rat := if q < 0 then -q else q
 
-/-- `np.where(np.abs(diff - m) < tol)[0]` -/
+/-- `np.where(np.abs(diff - m) <= tol * np.abs(m))[0]`: ties up to a RELATIVE tolerance (exact ties when `m = 0`) -/
 def tiedIdx (tol m : Rat) (diff : List Rat) : List Nat :=
-  (diff.zipIdx.filter (fun di => decide (absR (di.1 - m) < tol))).map (fun di => di.2)
+  (diff.zipIdx.filter (fun di => decide (absR (di.1 - m) ≤ tol * absR m))).map (fun di => di.2)
 
 /-- everything after sorting and the computation of `lag` -/
 def pick (tol : Rat) (cdiv : Nat) (s : List Rat) (lag : Nat) : Except Wire.Err (Rat × Rat) :=
@@ -49,7 +50,7 @@ def pick (tol : Rat) (cdiv : Nat) (s : List Rat) (lag : Nat) : Except Wire.Err (
   | d0 :: ds =>
     let idx := tiedIdx tol (minList d0 ds) (d0 :: ds)
     match idx[idx.length / cdiv]? with
-    | none => .error .Other                   -- IndexError (cannot happen for tol > 0, cdiv ≥ 2)
+    | none => .error .Other                   -- IndexError (cannot happen for tol ≥ 0, cdiv ≥ 2)
     | some i =>
       match s[i]?, s[i + lag]? with
       | some a, some b => .ok (a, b)
